@@ -247,6 +247,9 @@ func init() {
 	} {
 		reg(n, func(in *Interp, fr *frame, fn *ssa.Function, args []Value) Value { return nil })
 	}
+	for _, n := range []string{"internal/testlog.Getenv", "internal/testlog.Open", "internal/testlog.Stat"} {
+		reg(n, func(in *Interp, fr *frame, fn *ssa.Function, args []Value) Value { return nil })
+	}
 	reg("(*sync.Mutex).TryLock", func(in *Interp, fr *frame, fn *ssa.Function, args []Value) Value { return in.tb.tru })
 	reg("(*sync.Cond).Wait", func(in *Interp, fr *frame, fn *ssa.Function, args []Value) Value {
 		in.unsupported("sync.Cond.Wait would block (single-goroutine model)")
